@@ -9,6 +9,7 @@ import TsVerif.C17.Full
 import TsVerif.C17.StackSpec
 import TsVerif.C17.MultiOrder
 import TsVerif.C17.WellNested
+import TsVerif.C17.Dyn
 /-!
 Driver for C17.  Reads the case stream written by `harness/src/bin/c17` and prints one line per case:
 
@@ -303,7 +304,7 @@ def runMMerge (s : St) : String :=
   let corr := if decide (m = s.evs) then "ok" else "DIFF"
   let wf := judgeEvents n s.evs
   let maxd := defs.foldl (fun a d => max a d.depth) 0
-  s!"{s.id} kind=N corr={corr} defsin={if defsIn n defs then 1 else 0} refsup={if refsUp defs then 1 else 0} fin={if fin then 1 else 0} wf={if wf then "ok" else "FAIL"} nlayers={defs.length} maxlayerdepth={maxd} defsnice={if defsNiceB defs then 1 else 0} static={if noInj defs then 1 else 0} crossnice={if crossNice defs then 1 else 0} crosslam={if crossLam defs then 1 else 0} staticnice={if staticNice defs then 1 else 0} ncaps={totalCaps defs} depth={maxDepth s.evs} ir={s.irTotal} irreal={s.irReal} irbad={s.irBad} err={s.err}"
+  s!"{s.id} kind=N corr={corr} defsin={if defsIn n defs then 1 else 0} refsup={if refsUp defs then 1 else 0} fin={if fin then 1 else 0} wf={if wf then "ok" else "FAIL"} nlayers={defs.length} maxlayerdepth={maxd} defsnice={if defsNiceB defs then 1 else 0} static={if noInj defs then 1 else 0} crossnice={if crossNice defs then 1 else 0} crosslam={if crossLam defs then 1 else 0} staticnice={if staticNice defs then 1 else 0} closure={if closureNodup defs s.top then 1 else 0} injtie={if injTieOk defs then 1 else 0} dynnice={if dynNice defs s.top then 1 else 0} ncaps={totalCaps defs} depth={maxDepth s.evs} ir={s.irTotal} irreal={s.irReal} irbad={s.irBad} err={s.err}"
 
 /-- `run merge`: the single-layer merge model against the real event stream. -/
 def runMerge (s : St) : String :=
